@@ -125,6 +125,33 @@ pub fn run(fam: &str, t: &mut Toks) -> Option<R<String>> {
                     Err(e) => format!("err {:?}", e),
                 })
             }
+            "addr_pred" => {
+                let p = p_predicate(t)?;
+                t.done()?;
+                Ok(hex_of(&essential_hash::content_addr(&p).0))
+            }
+            "addr_prog" => {
+                let b = t.bytes()?;
+                t.done()?;
+                Ok(hex_of(&essential_hash::content_addr(&essential_types::predicate::Program(b)).0))
+            }
+            "addr_contract" => {
+                let ps = t.list(p_predicate)?;
+                let salt = t.bytes32()?;
+                t.done()?;
+                let c = essential_types::contract::Contract { predicates: ps, salt };
+                Ok(hex_of(&essential_hash::content_addr(&c).0))
+            }
+            "addr_solution" => {
+                let s = p_solution(t)?;
+                t.done()?;
+                Ok(format!("{} {}", hex_of(&essential_hash::content_addr(&s).0), hex_of(&essential_hash::serialize(&s))))
+            }
+            "addr_set" => {
+                let ss = t.list(p_solution)?;
+                t.done()?;
+                Ok(hex_of(&essential_hash::content_addr(&SolutionSet { solutions: ss }).0))
+            }
             "decmuts" => {
                 let ws = t.words()?;
                 t.done()?;
@@ -213,6 +240,98 @@ pub fn run_oracle(fam: &str, t: &mut Toks) -> Option<R<String>> {
                     }
                 }
                 Ok("ok".into())
+            }
+            "o_addr_contract" => {
+                // permutation invariance and agreement of all helper entry points (rotation + reversal)
+                let ps = t.list(p_predicate)?;
+                let salt = t.bytes32()?;
+                t.done()?;
+                let c = essential_types::contract::Contract { predicates: ps.clone(), salt };
+                let a0 = essential_hash::content_addr(&c);
+                use essential_hash::Address;
+                let addrs: Vec<ContentAddress> = ps.iter().map(essential_hash::content_addr).collect();
+                let mut slice = addrs.clone();
+                let checks = [
+                    ("trait method", c.content_address()),
+                    ("from_contract", essential_hash::contract_addr::from_contract(&c)),
+                    ("from_predicate_addrs", essential_hash::contract_addr::from_predicate_addrs(addrs.clone(), &salt)),
+                    ("from_predicate_addrs_slice", essential_hash::contract_addr::from_predicate_addrs_slice(&mut slice, &salt)),
+                ];
+                for (n, a) in checks {
+                    if a != a0 {
+                        return Ok(format!("FAIL {n} disagrees with content_addr"));
+                    }
+                }
+                let mut rev = ps.clone();
+                rev.reverse();
+                let mut rot = ps.clone();
+                if !rot.is_empty() {
+                    rot.rotate_left(1);
+                }
+                for q in [rev, rot] {
+                    let c2 = essential_types::contract::Contract { predicates: q, salt };
+                    if essential_hash::content_addr(&c2) != a0 {
+                        return Ok("FAIL address depends on predicate order".into());
+                    }
+                }
+                // independent recomputation of the hashed bytes: sorted member addresses then the salt
+                let mut sorted: Vec<[u8; 32]> = addrs.iter().map(|a| a.0).collect();
+                sorted.sort();
+                let mut pre: Vec<u8> = sorted.concat();
+                pre.extend_from_slice(&salt);
+                if essential_hash::hash_bytes(&pre) != a0.0 {
+                    return Ok("FAIL address is not SHA-256(sorted predicate addresses ++ salt)".into());
+                }
+                Ok("ok".into())
+            }
+            "o_addr_set" => {
+                let ss = t.list(p_solution)?;
+                t.done()?;
+                let a0 = essential_hash::content_addr(&SolutionSet { solutions: ss.clone() });
+                let addrs: Vec<ContentAddress> = ss.iter().map(essential_hash::content_addr).collect();
+                let mut slice = addrs.clone();
+                if essential_hash::solution_set_addr::from_solution_addrs(addrs.clone()) != a0
+                    || essential_hash::solution_set_addr::from_solution_addrs_slice(&mut slice) != a0
+                    || essential_hash::solution_set_addr::from_set(&SolutionSet { solutions: ss.clone() }) != a0
+                {
+                    return Ok("FAIL helper constructors disagree".into());
+                }
+                let mut rev = ss.clone();
+                rev.reverse();
+                if essential_hash::content_addr(&SolutionSet { solutions: rev }) != a0 {
+                    return Ok("FAIL address depends on solution order".into());
+                }
+                let mut sorted: Vec<[u8; 32]> = addrs.iter().map(|a| a.0).collect();
+                sorted.sort();
+                if essential_hash::hash_bytes(&sorted.concat()) != a0.0 {
+                    return Ok("FAIL address is not SHA-256(sorted solution addresses)".into());
+                }
+                Ok("ok".into())
+            }
+            "o_addr_distinct" => {
+                // two different contracts (given explicitly) must hash different bytes
+                let ps1 = t.list(p_predicate)?;
+                let salt1 = t.bytes32()?;
+                let ps2 = t.list(p_predicate)?;
+                let salt2 = t.bytes32()?;
+                t.done()?;
+                let c1 = essential_types::contract::Contract { predicates: ps1, salt: salt1 };
+                let c2 = essential_types::contract::Contract { predicates: ps2, salt: salt2 };
+                let mut a = c1.predicates.clone();
+                let mut b = c2.predicates.clone();
+                a.sort();
+                b.sort();
+                let same = a == b && salt1 == salt2;
+                let eq = essential_hash::content_addr(&c1) == essential_hash::content_addr(&c2);
+                Ok(if eq == same { "ok".into() } else { format!("FAIL contracts equal-as-multisets={same} but addresses equal={eq}") })
+            }
+            "o_sol_distinct" => {
+                let s1 = p_solution(t)?;
+                let s2 = p_solution(t)?;
+                t.done()?;
+                let same = s1 == s2;
+                let eq = essential_hash::content_addr(&s1) == essential_hash::content_addr(&s2);
+                Ok(if eq == same { "ok".into() } else { format!("FAIL solutions equal={same} but addresses equal={eq}") })
             }
             _ => Err("nofam".into()),
         }
